@@ -231,3 +231,11 @@ func init() {
 		}
 	})
 }
+
+func init() {
+	register("DBGS", "debug: skip sites", func(c *Ctx, r *Report) {
+		for _, s := range c.W.skipSites("core", "generator", "gast", "graphs", "cmd", "common", "definitions") {
+			fmt.Println("SKIP", c.W.pos(s.Pos), s.Key)
+		}
+	})
+}
